@@ -7,7 +7,7 @@
 (* it and prints the violated ones; nothing stops at the first rejection,  *)
 (* so the rest of the file is still checked.                               *)
 (***************************************************************************)
-EXTENDS Known, Json, IOUtils
+EXTENDS Transcoder, Known, Json, IOUtils
 
 TraceFile == IOEnv.VERIF_TRACE
 Trace == ndJsonDeserialize(TraceFile)
@@ -23,7 +23,9 @@ Consume ==
            v == IF o.ev = "rpc" THEN Judge(o.scn, o) ELSE {}
            unexplained == {t \in v : KnownFinding(o.scn, o, t) = ""}
            known == {<<t, KnownFinding(o.scn, o, t)>> : t \in v \ unexplained}
+           drift == IF o.ev = "rpc" THEN Drift(o.scn, o) ELSE {}
        IN /\ IF v = {} THEN TRUE ELSE PrintT(ToJson([bad |-> o.sid, v |-> unexplained, kf |-> known]))
+          /\ IF drift = {} THEN TRUE ELSE PrintT(ToJson([drift |-> o.sid, f |-> drift]))
           /\ IF o.ev \in {"rpc", "skip"} THEN TRUE ELSE PrintT(ToJson([harness |-> o.ev, line |-> i]))
           /\ nbad' = IF v = {} THEN nbad ELSE nbad + 1
     /\ i' = i + 1
